@@ -446,7 +446,7 @@ def field_change_sites(prog, env, crate, ns, fields, sites=None):
 
 
 # combinators whose Ok / Some payload IS the payload of their receiver: `x.map_err(e)?` is `x?` as a value
-PAYLOAD_PRESERVING = ("std::result::Result::map_err", "std::option::Option::ok_or", "std::option::Option::ok_or_else", "std::result::Result::ok", "std::result::Result::inspect_err", "std::result::Result::or_else")
+PAYLOAD_PRESERVING = ("std::result::Result::map_err", "std::option::Option::ok_or", "std::option::Option::ok_or_else", "std::result::Result::ok", "std::result::Result::inspect_err")
 
 
 def unwrap_payload(t):
